@@ -73,6 +73,8 @@ type ctxSpec struct {
 	ALPN       []string `json:"alpn_cfg"`
 	ServerName string   `json:"server_name"`
 	Kind       string   `json:"kind"` // static | sds-ready | sds-notready
+	Require    bool     `json:"require_client_cert"`
+	Verify     bool     `json:"verify_client"`
 	lf         *leaf
 }
 
@@ -98,7 +100,7 @@ func (c *ctxSpec) coq() string {
 	for _, s := range c.ALPN {
 		al = append(al, CoqString(s))
 	}
-	return fmt.Sprintf("(mkP %s %s %s %s %s)", CoqBool(c.ready()), CoqString(c.CN), CoqList(sans), CoqList(al), CoqString(c.ServerName))
+	return fmt.Sprintf("(mkP %s %s %s %s %s %s %s)", CoqBool(c.ready()), CoqString(c.CN), CoqList(sans), CoqList(al), CoqString(c.ServerName), CoqBool(c.Require), CoqBool(c.Verify))
 }
 
 var nameAlphabet = []string{"a.com", "b.com", "a.b.com", "c.b.com", "x.a.com", "com", "b", "*.com", "*.b.com", "*.a.com", "*.c.b.com",
@@ -136,6 +138,7 @@ func genCtx(r *Rng, right *authority, li, ci int) (*ctxSpec, error) {
 	case k < 4:
 		c.Kind = "sds-ready"
 	}
+	c.Require, c.Verify = r.Pct(40), r.Pct(40)
 	lf, err := right.issue(c.CN, c.SANs, leafOpt{})
 	if err != nil {
 		return nil, err
@@ -150,6 +153,8 @@ type listenerUnderTest struct {
 	mng  types.TLSContextManager
 }
 
+var rightCAPEM string
+
 var sds = &sdsMock{cbs: map[string][]types.SdsUpdateCallbackFunc{}}
 
 func buildListener(name string, ctxs []*ctxSpec, inspector bool, tweak func(i int, cfg *v2.TLSConfig)) (*listenerUnderTest, error) {
@@ -158,9 +163,9 @@ func buildListener(name string, ctxs []*ctxSpec, inspector bool, tweak func(i in
 	lc.Inspector = inspector
 	var tcs []v2.TLSConfig
 	for i, c := range ctxs {
-		cfg := v2.TLSConfig{Status: true, ServerName: c.ServerName, ALPN: strings.Join(c.ALPN, ",")}
+		cfg := v2.TLSConfig{Status: true, ServerName: c.ServerName, ALPN: strings.Join(c.ALPN, ","), RequireClientCert: c.Require, VerifyClient: c.Verify}
 		if c.Kind == "static" {
-			cfg.CertChain, cfg.PrivateKey = c.lf.certPEM, c.lf.keyPEM
+			cfg.CertChain, cfg.PrivateKey, cfg.CACert = c.lf.certPEM, c.lf.keyPEM, rightCAPEM
 		} else {
 			cfg.SdsConfig = &v2.SdsConfig{CertificateConfig: &v2.SecretConfigWrapper{Name: fmt.Sprintf("%s-c%d", name, i)}}
 		}
@@ -194,14 +199,58 @@ type configForClient interface {
 
 // choose calls the real GetConfigForClient and identifies the chosen context (-1: error, -2: unknown certificate).
 func (l *listenerUnderTest) choose(sni string, protos []string) int {
+	i, _, _ := l.chooseEff(sni, protos)
+	return i
+}
+
+// chooseEff also returns the ClientAuth and NextProtos of the config handed to crypto/tls.
+func (l *listenerUnderTest) chooseEff(sni string, protos []string) (int, int, []string) {
 	cfg, err := l.mng.(configForClient).GetConfigForClient(&mtlstls.ClientHelloInfo{ServerName: sni, SupportedProtos: protos})
 	if err != nil || cfg == nil {
-		return -1
+		return -1, 0, nil
 	}
 	if len(cfg.Certificates) == 0 || len(cfg.Certificates[0].Certificate) == 0 {
-		return -2
+		return -2, 0, nil
 	}
-	return l.byDER(cfg.Certificates[0].Certificate[0])
+	return l.byDER(cfg.Certificates[0].Certificate[0]), int(cfg.ClientAuth), cfg.NextProtos
+}
+
+// the client-auth mode the configuration asks for (tls.ClientAuthType numbering)
+func (c *ctxSpec) wantAuth() int {
+	switch {
+	case c.Require && c.Verify:
+		return 4 // RequireAndVerifyClientCert
+	case c.Verify:
+		return 3 // VerifyClientCertIfGiven
+	case c.Require:
+		return 1 // RequestClientCert
+	}
+	return 0
+}
+
+func sameStrs(a, b []string) bool {
+	if len(a) != len(b) {
+		return false
+	}
+	for i := range a {
+		if a[i] != b[i] {
+			return false
+		}
+	}
+	return true
+}
+
+// host names: no empty label (an absent SNI is the empty string)
+func isHostName(s string) bool {
+	if s == "" {
+		return true
+	}
+	for _, l := range strings.Split(s, ".") {
+		if l == "" {
+			return false
+		}
+	}
+	return true
 }
 
 func (l *listenerUnderTest) byDER(der []byte) int {
@@ -382,6 +431,7 @@ func c13(args []string) int {
 
 	right := newAuthority("right-ca")
 	other := newAuthority("other-ca")
+	rightCAPEM = right.pem
 
 	// ---------------- part A: selection ----------------
 	sel := run.NewShard(c13Header, "sel_case", "sel_mismatches tls_keys_lowered tls_alpn_white")
@@ -445,12 +495,20 @@ func c13(args []string) int {
 			if r.Pct(3) {
 				protos = append(protos, "")
 			}
-			got := l.choose(sni, protos)
+			got, gauth, gprotos := l.chooseEff(sni, protos)
 			key := fmt.Sprintf("%s|%s|%v", strings.Join(pcoq, ";"), sni, protos)
 			kinds := []string{fmt.Sprintf("sel-ready=%d", nready)}
-			rep := map[string]interface{}{"part": "select", "contexts": ctxs, "sni": sni, "protos": protos, "chosen": got}
-			// finder
-			if wireFeasible(sni, protos) {
+			rep := map[string]interface{}{"part": "select", "listener": l.name, "contexts": ctxs, "sni": sni, "protos": protos, "chosen": got, "client_auth": gauth, "next_protos": gprotos}
+			// finder: the chosen context must carry ITS OWN configured client-auth mode and ALPN list
+			if got >= 0 {
+				g := ctxs[got]
+				if gauth != g.wantAuth() || !sameStrs(gprotos, g.effALPN()) {
+					kinds = append(kinds, "sel-foreign-settings")
+					run.Fail("tls-config:context-serves-with-settings-of-another-context", fmt.Sprintf("context %d (%s) was chosen but its tls.Config has ClientAuth=%d NextProtos=%v; configured: ClientAuth=%d NextProtos=%v", got, g.Kind, gauth, gprotos, g.wantAuth(), g.effALPN()), rep)
+				}
+			}
+			// finder: precedence
+			if wireFeasible(sni, protos) && isHostName(sni) {
 				allowed := map[int]bool{}
 				for _, rd := range readings {
 					allowed[specSelect(ctxs, sni, protos, rd)] = true
@@ -490,7 +548,7 @@ func c13(args []string) int {
 			if got >= 0 {
 				gs = fmt.Sprintf("(Some %d%%nat)", got)
 			}
-			sel.Add(fmt.Sprintf("(%s, %s, %s, %s)", CoqList(pcoq), CoqString(sni), coqStrs(protos), gs), rep)
+			sel.Add(fmt.Sprintf("(%s, %s, %s, %s, %d%%N, %s)", CoqList(pcoq), CoqString(sni), coqStrs(protos), gs, gauth, coqStrs(gprotos)), rep)
 			if sel.Len() >= 350 {
 				sel.Close()
 				sel = run.NewShard(c13Header, "sel_case", sel.Eval)
@@ -597,6 +655,7 @@ func c13hs(args []string) int {
 	run.R = NewRng(run.Seed ^ 0x13)
 	right := newAuthority("right-ca")
 	other := newAuthority("other-ca")
+	rightCAPEM = right.pem
 	var ls []*listenerUnderTest
 	for li := 0; len(ls) < run.N(6, 30) && li < 1000; li++ {
 		n := 2 + run.R.Intn(4)
@@ -735,6 +794,9 @@ func runHandshakes(run *Run, right, other *authority, ls []*listenerUnderTest, v
 		maxVer = gotls.VersionTLS13
 	}
 	// ---- B1: certificate seen by a reference client ----
+	b1lf, _ := right.issue("client", []string{"client.test"}, leafOpt{})
+	b1kp, _ := gotls.X509KeyPair([]byte(b1lf.certPEM), []byte(b1lf.keyPEM))
+	b1Cert := &b1kp
 	for _, l := range ls {
 		addr, results, closer := serveMOSN(l.mng, 4)
 		var pcoq []string
@@ -764,31 +826,35 @@ func runHandshakes(run *Run, right, other *authority, ls []*listenerUnderTest, v
 				continue
 			}
 			conn.SetDeadline(time.Now().Add(hsTimeout))
-			tc := gotls.Client(conn, &gotls.Config{ServerName: sni, NextProtos: protos, InsecureSkipVerify: true, MaxVersion: maxVer})
-			herr := tc.Handshake()
 			seen := -1
+			tc := gotls.Client(conn, &gotls.Config{ServerName: sni, NextProtos: protos, InsecureSkipVerify: true, MaxVersion: maxVer,
+				GetClientCertificate: func(*gotls.CertificateRequestInfo) (*gotls.Certificate, error) { return b1Cert, nil },
+				VerifyPeerCertificate: func(raw [][]byte, _ [][]*x509.Certificate) error {
+					if len(raw) > 0 {
+						seen = l.byDER(raw[0])
+					}
+					return nil
+				}})
+			herr := tc.Handshake()
 			negotiated := ""
 			if herr == nil {
 				st := tc.ConnectionState()
 				negotiated = fmt.Sprintf("%x/%s", st.Version, st.NegotiatedProtocol)
-				if len(st.PeerCertificates) > 0 {
-					seen = l.byDER(st.PeerCertificates[0].Raw)
-				}
 				tc.Write([]byte("ping"))
 				io.ReadFull(tc, make([]byte, 4))
 			}
 			conn.Close()
 			so := <-results
-			direct := l.choose(sni, protos)
+			direct, dauth, dprotos := l.chooseEff(sni, protos)
 			rep := map[string]interface{}{"part": "handshake-select", "ver": ver, "contexts": l.ctxs, "sni": sni, "protos": protos,
 				"certificate_seen": seen, "direct_call": direct, "negotiated": negotiated, "client_err": fmt.Sprint(herr), "server_err": fmt.Sprint(so.hsErr)}
 			h := hsResult{Kind: "sel", Ver: ver, Key: fmt.Sprintf("hs|%s|%s|%s|%v", ver, strings.Join(pcoq, ";"), sni, protos), Kinds: []string{"hs-select-" + ver}, Rep: rep}
-			if herr != nil || seen < 0 {
-				// a handshake that does not complete shows no certificate: not a selection observation
-				h.Kinds = []string{"hs-select-failed-" + ver}
+			if seen < 0 {
+				// no certificate was shown: not a selection observation
+				h.Kinds = []string{"hs-select-no-certificate-" + ver}
 				h.Kind = "skip"
 				if direct >= 0 {
-					h.FailSig, h.FailWhat = "tls-handshake:reference-client-cannot-connect", fmt.Sprintf("reference client handshake failed (%v / server %v) although a context is selectable", herr, so.hsErr)
+					h.FailSig, h.FailWhat = "tls-handshake:no-certificate-presented", fmt.Sprintf("reference client saw no certificate (%v / server %v) although a context is selectable", herr, so.hsErr)
 				}
 			} else {
 				if seen != direct {
@@ -802,13 +868,13 @@ func runHandshakes(run *Run, right, other *authority, ls []*listenerUnderTest, v
 					h.FailSig = classify(l.ctxs, sni, protos, seen)
 					h.FailWhat = fmt.Sprintf("handshake with sni=%q alpn=%v presented context %d; the documented precedence does not allow it", sni, protos, seen)
 				}
-				h.Coq = fmt.Sprintf("(%s, %s, %s, (Some %d%%nat))", CoqList(pcoq), CoqString(sni), coqStrs(protos), seen)
+				h.Coq = fmt.Sprintf("(%s, %s, %s, (Some %d%%nat), %d%%N, %s)", CoqList(pcoq), CoqString(sni), coqStrs(protos), seen, dauth, coqStrs(dprotos))
 			}
 			if h.Kind != "skip" {
 				out = append(out, h)
 			} else if h.FailSig != "" {
 				h.Kind = "sel"
-				h.Coq = fmt.Sprintf("(%s, %s, %s, %s)", CoqList(pcoq), CoqString(sni), coqStrs(protos), map[bool]string{true: fmt.Sprintf("(Some %d%%nat)", direct), false: "None"}[direct >= 0])
+				h.Coq = fmt.Sprintf("(%s, %s, %s, %s, %d%%N, %s)", CoqList(pcoq), CoqString(sni), coqStrs(protos), map[bool]string{true: fmt.Sprintf("(Some %d%%nat)", direct), false: "None"}[direct >= 0], dauth, coqStrs(dprotos))
 				out = append(out, h)
 			}
 		}
